@@ -85,6 +85,7 @@ def scene(r, cond):
         img[r.randrange(ny), r.randrange(nx)] = np.nan
         img[int(pos[1][1]), int(pos[1][0]) + 2] = np.inf
         img[int(pos[0][1]) - 1, int(pos[0][0]) - 1] = np.nan
+        img[int(pos[0][1]) + 2, int(pos[0][0]) - 2] = -np.inf        # an infinity inside the first source's cut-out (a clean-up writes NaN there)
         err[r.randrange(ny), r.randrange(nx)] = np.nan
     return dict(data=img, error=err, mask=mask, pos=pos, ny=ny, nx=nx)
 
@@ -265,6 +266,8 @@ def api_list():
             for f in (pc.centroid_com, pc.centroid_quadratic):
                 f(Dc, mask=Mc)
             pc.centroid_quadratic(Dc, mask=Mc, fit_boxsize=3, xpeak=6, ypeak=6)
+            pc.centroid_quadratic(Dc)                               # without a mask: the non-finite clean-up alone
+            pc.centroid_com(Dc)
             for f in (pc.centroid_1dg, pc.centroid_2dg):
                 f(Dc, mask=Mc)
                 f(Dc, error=Ec, mask=Mc)
